@@ -403,7 +403,7 @@ func main() {
 	clk.Install()
 	root := rng.New(a.Seed)
 	rep := emit.NewReport("C06", a.Seed, a.Tier)
-	rep.Rule = "1-2 resources x 1-2 hotspot rules (concurrency with either control behaviour, thresholds 0-5, specific items incl. 0 and -1, ParamIndex 0/1/-1/-2/3, ParamKey, ParamsMaxCapacity 0(default 4000)/1-3; sometimes a QPS rule before or after), 25-64 operations: entries over 1-4 values of kinds int/int64/int32/uint8/string/bool/float64/float32/struct (plus nil, -0.0, NaN) kept alive together and exited in random order, exits of blocked / already exited entries, optional drain of all live entries. One case in ten guards each resource with 2-3 concurrency rules bound to different argument positions (0, 1, -1 / ParamKey) and interleaves entries whose arguments differ per position with entries carrying no arguments at all, then drains and re-enters. Non-trivial = at least one admission and one rejection; distinct by full input."
+	rep.Rule = "1-2 resources x 1-2 hotspot rules (concurrency with either control behaviour, thresholds 0-5, specific items incl. 0 and -1, ParamIndex 0/1/-1/-2/3, ParamKey, ParamsMaxCapacity 0(default 4000)/1-3; sometimes a QPS rule before or after), 25-64 operations: entries over 1-4 values of kinds int/int64/int32/uint8/string/bool/float64/float32/struct (plus nil, -0.0, NaN) kept alive together and exited in random order, exits of blocked / already exited entries, optional drain of all live entries. One case in ten guards each resource with 2-3 concurrency rules bound to different argument positions (0, 1, -1 / ParamKey) and interleaves entries whose arguments differ per position with entries carrying no arguments at all, then drains and re-enters. Plus, monitor only: 300 two-phase schedules (2-4 goroutines parked at yield 400 between the rule check and the statistic slots, exits of counted entries in between; conservation and the sequential decision asserted at quiescent points). Non-trivial = at least one admission and one rejection; distinct by full input."
 	nCorr := a.Pick(a.N, 230, 6000)
 	nMon := a.Pick(a.Mon, 4000, 80000)
 	if a.Search {
@@ -498,6 +498,14 @@ func main() {
 			fmt.Println(string(out))
 		}
 	}
+	if a.Only >= schedBase {
+		cur = kit.Case{ID: a.Only}
+		runSched(genSched(root.Fork(uint64(a.Only)), a.Only-schedBase), rep)
+		for _, f := range rep.MonitorFailures {
+			fmt.Printf("MONITOR-FAIL clause=%s signature=%s %s\n", f.Clause, f.Signature, f.Detail)
+		}
+		return
+	}
 	if a.Only >= 0 {
 		runOne(a.Only, false)
 		for _, f := range rep.MonitorFailures {
@@ -507,6 +515,18 @@ func main() {
 	}
 	for id := 0; id < nMon; id++ {
 		runOne(id, id < nCorr)
+	}
+	// monitor-only leg: goroutines parked between rule check and statistic slots (yield 400)
+	nSched := a.Pick(0, 300, 6000)
+	if a.Search {
+		nSched *= 5
+	}
+	for i := 0; i < nSched; i++ {
+		cur = kit.Case{ID: schedBase + i}
+		kit.Beat()
+		runSched(genSched(root.Fork(uint64(schedBase+i)), i), rep)
+		rep.Evaluations++
+		rep.Count("extra_two_phase_schedules", 1)
 	}
 	rep.DistinctNontrivial = dist.N()
 	rep.Consts["hotspot.ConcurrencyMaxCount"] = hotspot.ConcurrencyMaxCount
